@@ -30,6 +30,8 @@ def list? {α : Type} (f : String → Option α) (s : String) : Option (List α)
 
 def showQ : Q → String
   | .ok neg n sc => s!"{if neg then "-" else ""}{n}e-{sc}"
+  | .inf neg => if neg then "-inf" else "inf"
+  | .nan => "nan"
   | .bad => "bad"
   | .exotic => "exotic"
 
